@@ -17,3 +17,22 @@ Definition fl_frac_lt (k n xff : Z) : bool :=
   | Some Lt => true | _ => false end.
 
 Definition flocq_fops : fops := mkFops 0 fl_add fl_div_len fl_lt fl_frac_lt.
+
+(** float64 -> float32 conversion (round to nearest even), as Go's float32(f) *)
+Definition fl_f64_to_f32 (b : Z) : Z :=
+  match b64_of_bits b with
+  | Binary.B754_zero _ _ s => bits_of_b32 (Binary.B754_zero 24 128 s)
+  | Binary.B754_infinity _ _ s => bits_of_b32 (Binary.B754_infinity 24 128 s)
+  | Binary.B754_finite _ _ s m e _ =>
+      bits_of_b32 (binary_normalize 24 128 eq_refl eq_refl mode_NE (SpecFloat.cond_Zopp s (Zpos m)) e s)
+  | Binary.B754_nan _ _ _ _ _ => 0x7FC00000
+  end.
+
+(** [xFilesFactorValue.Set] after strconv.ParseFloat(s, 32) returned the float64 [pf]:
+    accepted iff 0 <= f <= 1 (NaN fails both comparisons), stored as float32(f) *)
+Definition fl_flag_xff (pf : Z) : option Z :=
+  let f := b64_of_bits pf in
+  match b64_compare (b64_of_int 0) f, b64_compare f (b64_of_int 1) with
+  | Some Lt, Some Lt | Some Lt, Some Eq | Some Eq, Some Lt | Some Eq, Some Eq => Some (fl_f64_to_f32 pf)
+  | _, _ => None
+  end.
